@@ -178,6 +178,22 @@ def rule_limiter_admission(ctx, crate, rule="R-LIMITER-ADMISSION"):
                 if r0.has_field("capacity"):
                     cap_stores.append((c.bb, b.slice_args(c, [1])))
         good_prev = [i for i, sl in prev_stores if set(now_p) & sl.params()]
+        if kind == "atomic":
+            # the stored reference time is absolute (time since `start`, less the sub-interval remainder): as a linear form it
+            # has the elapsed time with coefficient 1 and the *old* reference time with coefficient 0 - `diff - remainder` (time
+            # since the last admission) would make the next call see the whole age of the bar as elapsed and refill the bucket
+            from .. import affine as A
+            for c in b.calls(r"portable_atomic::AtomicU64::(store|swap)"):
+                if not b.slice_args(c, [0], through_calls=False).has_field("prev"):
+                    continue
+                form = A.linform(b, c.args[1], c.bb)
+                old_prev = [k for k, v in form.items() if isinstance(k, tuple) and k[0] == "call" and k[1].endswith("AtomicU64::load") and "prev" in str(k[2]) and v != 0]
+                elapsed = [k for k, v in form.items() if isinstance(k, tuple) and k[0] == "call" and re.search(r"Duration::as_(nanos|micros|millis)", k[1]) and v == 1]
+                n += 1
+                ctx.check(not old_prev and bool(elapsed), rule, "%s:prev-is-absolute" % K.meth(fn.replace("::allow", "")), b.name, c.loc(),
+                          "the new reference time is the elapsed time since start minus the sub-interval remainder",
+                          "the stored reference time is not absolute (old prev enters with coefficient %s, elapsed %s): %s" % (
+                              [form[k] for k in old_prev] or 0, "present" if elapsed else "missing", A.show(form)[:160]), cfg)
         good_cap = [i for i, sl in cap_stores if sl.has_call(r"std::cmp::Ord::min", r"core::cmp::Ord::min", r"std::cmp::min") and
                     any(isinstance(c, int) and not isinstance(c, bool) and c in (10, 20) for c in sl.consts())]
         for t in trues:
